@@ -13,7 +13,10 @@
 //	    compiled code of a salted twin module, so that executing it is observable),
 //	(3) all step-level interleavings of 2/3 writers of one key (plus a reader),
 //	(4) every step of the miss / stale / hit flows failing once with ENOSPC / EIO,
-//	(5) determinism of the entry: 5 in-process compilations, 3 separate processes.
+//	(5) determinism of the entry: 5 in-process compilations, 3 separate processes,
+//	(6) all merges of the cache operations of two threads compiling two DIFFERENT modules in one
+//	    process on one runtime and directory (xmod.go): every final name must hold the entry its
+//	    module produces when compiled alone.
 //
 // After every state a recovery runs in a supervised child: fresh cache object + fresh runtime on
 // that directory, CompileModule, instantiate, call every export, compare with the uncached
@@ -761,8 +764,9 @@ func genCases(p *Plan) []Case {
 			}
 		}
 	}
-	// (6) different modules compiled concurrently in one process against one directory
-	cs = append(cs, xmodCases(p)...)
+	// (6) different modules compiled concurrently in one process against one directory; first in the
+	// plan so that this verdict is reached before the stop-after-20-violations rule can cut the run
+	cs = append(xmodCases(p), cs...)
 	return cs
 }
 
